@@ -138,3 +138,11 @@ func (am *AllocatorManager) VerifObserveAllocatorLeader(dcLocation string) {
 	}
 	allocator.setAllocatorLeader(leader)
 }
+
+// VerifSetMaxRetryCount sets the retry count of getTS / the Global TSO generation
+// (a package variable that the code's own failpoints change too) and returns the old value.
+func VerifSetMaxRetryCount(n int) int {
+	o := maxRetryCount
+	maxRetryCount = n
+	return o
+}
